@@ -28,6 +28,7 @@ func Families(quick bool) []*prog.Case {
 	cases = append(cases, famPanic(quick)...)
 	cases = append(cases, famFlow(quick)...)
 	cases = append(cases, famLoops(quick)...)
+	cases = append(cases, famSeq(quick)...)
 	return cases
 }
 
